@@ -270,6 +270,7 @@ class Auts(MilStream):
 class Malformed(MilStream):
     name = "malformed"
     spec_check = None
+    model_out = None      # c15_expected is the specification's answer, which says nothing about these inputs
 
     def generate(self, rng, tier):
         cs = []
